@@ -122,6 +122,29 @@ def check_pus(case):
     eq(devs, "clean.trailer", raw[-2:], crc_bytes(raw[:-2]), "trailer vs reference CRC of all preceding octets")
     dec[0][1](raw)  # uncorrupted packet must be accepted (an exception here is reported by the engine)
     true(devs, "clean.check_pus_crc", check_pus_crc(raw) is True, "standalone CRC check rejects an uncorrupted packet")
+    # "whatever fields were set or changed before packing": objects that already carry a trailer (packed before / decoded) are
+    # changed through their public header objects or through a caller-owned mutable data buffer, then packed with default arguments
+    for tag in ("packed", "decoded"):
+        if case["kind"] == "tc":
+            data = bytearray(app)
+            obj = c02.build_tc(tcm, p, data) if tag == "packed" else tcm.PusTc.unpack(raw)
+            obj.pack()
+            obj.pus_tc_sec_header.subservice = (p["subservice"] + 1) % 256
+            obj.pus_tc_sec_header.source_id = (p["source_id"] + 1) % 65536
+        else:
+            data = bytearray(src)
+            obj = c03.build_tm(tmm, p, stamp, data) if tag == "packed" else tmm.PusTm.unpack(raw, ts)
+            obj.pack()
+            obj.pus_tm_sec_header.message_counter = (p["msg_counter"] + 1) % 65536
+            obj.pus_tm_sec_header.dest_id = (p["dest_id"] + 1) % 65536
+        obj.sp_header.seq_count = (p["seq"] + 1) % 16384
+        if tag == "packed" and len(data):
+            data[0] ^= 0xFF  # the caller updates its own buffer in place
+        again = bytes(obj.pack())
+        eq(devs, f"changed_after_pack.{tag}.trailer", again[-2:], crc_bytes(again[:-2]), "trailer vs reference CRC after fields were changed through the header objects")
+        true(devs, f"changed_after_pack.{tag}.check_pus_crc", check_pus_crc(again) is True, "standalone CRC check rejects the re-packed packet")
+        if again[-2:] == crc_bytes(again[:-2]):
+            dec[0][1](again)
     if devs:
         return devs, 1
     n = run_faults(devs, raw, bits_of_octets([4, 5]), dec, case, None, verdict=check_pus_crc)
